@@ -48,6 +48,18 @@ const version = "v0.0.0-c16"
 
 var helpers = "\nconst K = \"k&<>\\\"'/x y\"\n\ntempl Helper(v string) {\n\t<em data-h={ v }>{ v }</em>\n}\n\ntempl Wrap() {\n\t<blockquote>{ children... }</blockquote>\n}\n"
 
+const helpersGo = `
+
+import (
+	"fmt"
+	"strings"
+)
+
+func F(format string, a ...any) string { return fmt.Sprintf(format, a...) }
+func Tag(s string) string              { return "<" + s + ">" }
+func TAG(s string) string              { return "<" + strings.ToUpper(s) + ">" }
+`
+
 const mainSrc = `package main
 
 import (
@@ -152,6 +164,11 @@ func seededChains() []tcase {
 		mk("element and expression reordered", "\t<p>hi</p>\n\t{ s }\n", "\t{ s }\n\t<p>hi</p>\n"),
 		mk("script expression moved inside a string literal", "\t<script>var a = {{ s }};</script>\n", "\t<script>var a = \"{{ s }}\";</script>\n"),
 		mk("expression moved from before a class attribute into the element body", "\t<li title={ s } class={ K }>x</li>\n", "\t<li class={ K }>{ s }x</li>\n"),
+		mk("white space inside a string literal of an expression", "\t<p>{ F(\"%s has  %d   items\", s, len(xs)) }</p>\n", "\t<p>{ F(\"%s has %d items\", s, len(xs)) }</p>\n"),
+		mk("line break replaced by a space inside a raw string of an expression", "\t<p>{ F(`a\n\tb %s`, t) }</p>\n", "\t<p>{ F(`a b %s`, t) }</p>\n"),
+		mk("white space inside a rune literal of an expression", "\t<p title={ F(\"%c|%s\", ' ', s) }>x</p>\n", "\t<p title={ F(\"%c|%s\", '\t', s) }>x</p>\n"),
+		mk("white space inside a string literal of a condition", "\tif s + \" \" == \"a \" {\n\t\t<i>x</i>\n\t}\n", "\tif s + \"  \" == \"a \" {\n\t\t<i>x</i>\n\t}\n"),
+		mk("white space outside literals of an expression", "\t<p>{ F(\"%s\",s) }</p>\n", "\t<p>{ F(\"%s\",  s) }</p>\n"),
 		mk("text edit only", "\t<p title=\"a\\b\">Hello \"w\" \\ é \x01 \xff</p>\n", "\t<p title=\"c'd\">Bye \\n \"x\"</p>\n"),
 		mk("two text edits in a row", "\t<p>one</p>{ s }\n", "\t<p>two \"2\"</p>{ s }\n", "\t<p>three \\3</p>{ s }\n"),
 	}
@@ -172,6 +189,33 @@ func buildCases(c *core.Ctx, seeded bool, nPlain, nChains int) []*tcase {
 			s.chain[i] = "package a\n\ntempl " + name + "(" + params + ") {\n" + b + "}\n"
 		}
 		add(s)
+	}
+	// literal LENGTH as a dimension of the rendering family: one long literal first / in the middle / last
+	if seeded {
+		lens := []int{4095, 4096, 4097, 65535, 65536, 65537, 200000}
+		if !c.Quick() {
+			lens = append(lens, 1<<20)
+		}
+		long := func(name string, pos, n int) string {
+			parts := []string{"a", "m", "z"}
+			if n >= 0 {
+				parts[pos] = "\"" + strings.Repeat("a", n)
+			}
+			return "package a\n\ntempl " + name + "(" + params + ") {\n\t<p>" + parts[0] + "</p>{ s }<i>" + parts[1] + "</i>{ t }<b>" + parts[2] + "</b>\n}\n"
+		}
+		for _, n := range lens {
+			for pos := 0; pos < 3; pos++ {
+				name := fmt.Sprintf("T%04d", len(cases)+1)
+				// the literal is the tag pair (7 bytes), backslash-quote (2) and the letters
+				tc := tcase{chain: []string{long(name, pos, n-9)}, typed: true, seeded: fmt.Sprintf("literal %d of 3 is %d bytes long: <x>, one double quote, %d letters a, </x>", pos+1, n, n-9)}
+				if pos == 1 && (n == 65536 || n == 200000) {
+					// as a text-only edit of a short template
+					tc.chain = []string{long(name, pos, -1), long(name, pos, n-9)}
+					tc.kinds = []string{"text-edit"}
+				}
+				add(tc)
+			}
+		}
 	}
 	for i := 0; i < nPlain; i++ {
 		body := randTemplate(c.Rng)
@@ -484,6 +528,7 @@ func oneBatch(c *core.Ctx, t *tally, bi, nPlain, nChains int) bool {
 		return h.HandleEvent(ctx, fsnotify.Event{Name: file, Op: fsnotify.Write})
 	}
 	for _, pkg := range []string{"a", "b"} {
+		os.WriteFile(filepath.Join(tmp, pkg, "helpers.go"), []byte("package "+pkg+helpersGo), 0o644)
 		if _, err := handle(filepath.Join(tmp, pkg, "helpers.templ"), "package "+pkg+"\n"+helpers, rootA); err != nil {
 			return fail("helper templates generate", err.Error())
 		}
@@ -558,12 +603,12 @@ func oneBatch(c *core.Ctx, t *tally, bi, nPlain, nChains int) bool {
 				if real != res.GoUpdated {
 					handlerOK = false
 					if c.NFails("decision: handler GoUpdated = HasChanged(previous, updated)") < 3 {
-						c.Fail("tie", "decision: handler GoUpdated = HasChanged(previous, updated)", "", map[string]string{"old": tc.chain[i-1], "new": src}, fmt.Sprintf("handler %v, HasChanged %v", res.GoUpdated, real))
+						c.Fail("tie", "decision: handler GoUpdated = HasChanged(previous, updated)", "", map[string]string{"old": abbr(tc.chain[i-1]), "new": abbr(src)}, fmt.Sprintf("handler %v, HasChanged %v", res.GoUpdated, real))
 					}
 				}
 				hcReq = append(hcReq, drv.Req{Fn: "haschanged", Args: hcArgs(tc.outs[i-1], out)})
 				hcImpl = append(hcImpl, real)
-				hcWhat = append(hcWhat, tc.chain[i-1]+"\n=====>\n"+src)
+				hcWhat = append(hcWhat, abbr(tc.chain[i-1])+"\n=====>\n"+abbr(src))
 				c.Count("hc:" + tc.chain[i-1] + "\x00" + src)
 			}
 			// the text file the handler wrote = the model's file of the real literals; every index reads back
@@ -673,6 +718,9 @@ func oneBatch(c *core.Ctx, t *tally, bi, nPlain, nChains int) bool {
 	lres := c.Model(lkReq)
 	litOK := true
 	for i, r := range lres {
+		if len(r) == 1 && string(r[0]) == "!stack" { // recursion depth of the extracted model on lines of 200 kB and more
+			continue
+		}
 		got := make([]string, 0, len(r))
 		for _, x := range r {
 			got = append(got, string(x))
@@ -682,7 +730,7 @@ func oneBatch(c *core.Ctx, t *tally, bi, nPlain, nChains int) bool {
 			// the specification predicate on the generator's own literals: each must stay one line of the file and one Go literal
 			if c.NFails("text file: every generated literal reads back from its line of the file") < 5 {
 				c.Fail("property", "text file: every generated literal reads back from its line of the file", "literal-breaks-line-or-quote",
-					map[string]string{"template": lkSrc[i], "model": strings.Join(got, "|"), "strconv": strings.ReplaceAll(lkWant[i], "\x00", "|")},
+					map[string]string{"template": abbr(lkSrc[i]), "model": strings.Join(got, "|"), "strconv": strings.ReplaceAll(lkWant[i], "\x00", "|")},
 					"a literal of the real generator contains a raw newline or unescaped quote, or the file built from the literals does not give literal i at index i")
 			}
 		}
@@ -801,7 +849,7 @@ func oneBatch(c *core.Ctx, t *tally, bi, nPlain, nChains int) bool {
 							d = unhex(s.d[tc.name][i])
 						}
 						c.Fail("property", "rendering: development mode on the template's own text file = normal mode", "dev-differs-from-normal",
-							map[string]any{"template": s.src, "valuation": i, "normal": unhex(s.n[tc.name][i]), "dev": d}, "TEMPL_DEV_MODE=true renders different bytes from the normally generated code")
+							map[string]any{"template": abbr(s.src), "construction": tc.seeded, "valuation": i, "normal": abbr(unhex(s.n[tc.name][i])), "dev": abbr(d), "literal_lengths": litLens(tc.outs[0])}, "TEMPL_DEV_MODE=true renders different bytes from the normally generated code")
 					}
 					break
 				}
@@ -818,6 +866,11 @@ func oneBatch(c *core.Ctx, t *tally, bi, nPlain, nChains int) bool {
 			}
 		}
 		c.Count("chain:" + strings.Join(tc.chain, "\x00"))
+		for _, k := range tc.kinds {
+			if k != "" {
+				c.Hist("edit: " + k)
+			}
+		}
 		if !noRecompile {
 			c.Hist("rendering: chain classified as needing recompilation")
 			continue
@@ -847,12 +900,12 @@ func oneBatch(c *core.Ctx, t *tally, bi, nPlain, nChains int) bool {
 					if i < len(xA[tc.name]) {
 						x = unhex(xA[tc.name][i])
 					}
-					in := map[string]any{"old": tc.chain[0], "new": tc.chain[last], "edits": tc.kinds, "valuation": i, "fresh": unhex(nB[tc.name][i]), "watch": x}
+					in := map[string]any{"old": abbr(tc.chain[0]), "new": abbr(tc.chain[last]), "edits": tc.kinds, "valuation": i, "fresh": abbr(unhex(nB[tc.name][i])), "watch": abbr(x)}
 					if tc.seeded != "" {
 						in["reproduction"] = tc.seeded
 					}
 					if last > 1 {
-						in["via"] = tc.chain[1:last]
+						in["via"] = abbrAll(tc.chain[1:last])
 					}
 					c.Fail("property", fam, shape, in, "the edit was classified as needing no recompilation, but the running program shows different bytes from a fresh generate and build")
 				}
@@ -864,7 +917,7 @@ func oneBatch(c *core.Ctx, t *tally, bi, nPlain, nChains int) bool {
 		c.Oblige("correspondence", "rendering: scratch module of generated templates builds and runs in all three modes", true, "")
 		for _, tc := range cases[:3] {
 			if tc.ok {
-				c.Sample(map[string]any{"old": tc.chain[0], "new": tc.chain[len(tc.chain)-1], "handler_go_updated": tc.goUpd})
+				c.Sample(map[string]any{"old": abbr(tc.chain[0]), "new": abbr(tc.chain[len(tc.chain)-1]), "handler_go_updated": tc.goUpd})
 			}
 		}
 	}
@@ -893,4 +946,12 @@ func lastN(s string, n int) string {
 		return s[len(s)-n:]
 	}
 	return s
+}
+
+func litLens(o generator.GeneratorOutput) []int {
+	r := make([]int, len(o.Literals))
+	for i, l := range o.Literals {
+		r[i] = len(l)
+	}
+	return r
 }
